@@ -56,6 +56,40 @@ int main(int argc, char** argv) {
         std::vector<Move> recent;     // moves made, to build shuffles
         if (rnd.nextInt(3) != 0) {
             std::string fen = setFens[rnd.nextInt(nSetFens)];
+            if (rnd.nextInt(4) == 0) {
+                // minor-piece endings: one to three bishops / knights of either side on squares of either colour (dead material is decided by
+                // the colours of the bishops' squares), sometimes with one more man that can be captured
+                for (int attempt = 0; attempt < 200; attempt++) {
+                    int board[64] = {0};
+                    auto put = [&](int pc, int colourWanted) { for (int t = 0; t < 200; t++) { int sq = rnd.nextInt(64); if (board[sq]) continue;
+                                                               if (colourWanted >= 0 && ((sq % 8 + sq / 8) % 2) != colourWanted) continue; board[sq] = pc; return; } };
+                    put(Piece::WKING, -1); put(Piece::BKING, -1);
+                    int nMinor = 1 + rnd.nextInt(3);
+                    int sameColour = rnd.nextInt(3) == 0 ? -1 : rnd.nextInt(2);      // all bishops on dark (0) / light (1) squares, or anywhere
+                    for (int k = 0; k < nMinor; k++) {
+                        bool knight = rnd.nextInt(6) == 0;
+                        int pc = knight ? Piece::WKNIGHT : Piece::WBISHOP;
+                        if (rnd.nextInt(2)) pc += 6;
+                        put(pc, knight ? -1 : sameColour);
+                    }
+                    if (rnd.nextInt(4) == 0) put(rnd.nextInt(2) ? Piece::WROOK : Piece::BKNIGHT, -1);
+                    std::string f;
+                    for (int y = 7; y >= 0; y--) {
+                        int e = 0;
+                        for (int x = 0; x < 8; x++) { int pc = board[y * 8 + x]; if (!pc) { e++; continue; } if (e) { f += std::to_string(e); e = 0; } f += " KQRBNPkqrbnp"[pc]; }
+                        if (e) f += std::to_string(e);
+                        if (y) f += '/';
+                    }
+                    f += rnd.nextInt(2) ? " w - - 0 1" : " b - - 0 1";
+                    try {
+                        Position q = TextIO::readFEN(f);
+                        Position o(q); o.setWhiteMove(!q.isWhiteMove());
+                        if (MoveGen::inCheck(o)) continue;
+                        fen = f;
+                        break;
+                    } catch (const ChessParseError&) {}
+                }
+            }
             bool ok = game.processString("setpos " + fen);
             Position p = TextIO::readFEN(fen);
             c.log("setpos", ",\"fen\":\"" + fen + "\",\"raw\":{" + posFieldsJ(p) + "}", ok);
